@@ -2,7 +2,7 @@ SPECIFICATION MCSpec
 CONSTANTS
   MaxRecs = 5
   MaxBatch = 1
-  MaxOps = 8
+  MaxOps = 7
   MaxEpoch = 1
   CapSet = {1, 2}
   KeySet = {"nil", "empty", "a"}
@@ -17,6 +17,7 @@ CONSTANTS
   UseWindow = TRUE
   UseReopen = FALSE
   UseEpochs = FALSE
+  UseReaders = FALSE
 INVARIANTS CTypeOK C01_Ordered SegsConsistent NoEmptyInnerSegment
 PROPERTIES StepsOK
 VIEW MCView
